@@ -669,7 +669,22 @@ def r6(ctx):
     ok = all(any(isinstance(c, ast.Call) and isinstance(c.func, ast.Attribute) and c.func.attr == 'write_pysam' for c in walk_no_nested(l))
              for l in walk_no_nested(mp) if isinstance(l, ast.For) and src(l.iter) == 'self')
     n_loops = sum(1 for l in walk_no_nested(mp) if isinstance(l, ast.For) and src(l.iter) == 'self')
-    ctx.emit('C05-R6', ok and n_loops >= 2, MOLECULE, mp, f'Molecule.write_pysam writes every fragment of the molecule ({n_loops} loops over self)', key='molecule-write-pysam')
+    # every normal path that is meant to keep the source reads (no_source_reads off, with and without consensus) passes through such a loop
+    wloops = [l for l in walk_no_nested(mp) if isinstance(l, ast.For) and src(l.iter) == 'self' and
+              any(isinstance(c, ast.Call) and isinstance(c.func, ast.Attribute) and c.func.attr == 'write_pysam' for c in walk_no_nested(l))]
+    paths_ok, n_paths = bool(wloops), 0
+    for cons in (True, False):
+        rs = explore(mp.body, mk_atoms({'no_source_reads': False, 'not no_source_reads': True, 'consensus': cons, 'not consensus': not cons}),
+                     mark=lambda nd: 'fragment-loop' if nd.kind == 'for' and any(nd.ast is l for l in wloops) else None)
+        for r in rs:
+            if r['kind'] not in ('fall', 'return'):
+                continue
+            n_paths += 1
+            if not any(t == '<mark>' and v == 'fragment-loop' for t, v, k in r['stores']):
+                paths_ok = False
+    ctx.counters['paths_enumerated'] += n_paths
+    ctx.emit('C05-R6', ok and paths_ok and n_paths >= 2, MOLECULE, mp, f'Molecule.write_pysam writes every fragment of the molecule on all {n_paths} paths that keep the source reads ({n_loops} loops over self)',
+             key='molecule-write-pysam')
     # the header writer receives the same dict
     f = ctx.fn(BTM, ST)
     w = [c for c in walk_no_nested(f) if isinstance(c, ast.Call) and last_name(dotted(c.func) or '') == 'sorted_bam_file']
